@@ -482,11 +482,28 @@ def replay(ctx: Ctx, rep: dict) -> None:
         im.close()
 
 
+MUST_FAIL = ('cross-type', 'int-op-bool', 'div-zero', 'index-bounds', 'short-circuit-eager', 'parse-accepts')
+
+
 def _still_fails(im: c01_impl.Impl, rep: dict) -> bool:
-    """re-evaluate the recorded oracle verdict: the recorded answer of the implementation is unchanged"""
+    """re-judge a recorded oracle verdict on the implementation as it is now"""
     case = rep.get('case') or {}
     code = case.get('program')
     if not isinstance(code, str):
         return False
-    _ok, _vs, ans = c01_oracle.ev(im, code)
-    return 'answer' not in case or case['answer'] == ans
+    fam = rep.get('key', '').split(':')[0]
+    ok, vs, ans = c01_oracle.ev(im, code)
+    if fam in MUST_FAIL:
+        return ok                       # these programs must be rejected
+    if fam.startswith('container-eq'):
+        return bool(ok and vs and vs.get('x') is True)
+    if fam == 'dict-literal-kwargs':
+        return not ok or (vs or {}).get('ok') is False
+    if fam == 'short-circuit':
+        want = ' or ' in code.split('=', 1)[1] and ' and ' not in code
+        return not (ok and vs and vs.get('x') is want and not im.messages)
+    if fam == 'divmod' and ok and vs:
+        return vs.get('q') == case.get('q') and vs.get('r') == case.get('r')
+    if 'answer' in case:
+        return case['answer'] == ans    # the implementation still answers what the oracle rejected
+    return True
